@@ -4,7 +4,7 @@ from .. import core
 
 def jobs(ctx):
     q = ctx.tier == "quick"
-    js = [("pattern_ops", ["exh", 4 if q else 6])]
+    js = [("pattern_ops", ["exh", 4 if q else 6]), ("pattern_ops", ["chars"])]
     for k in range(8):
         js.append(("pattern_ops", ["rand", 8000 if q else 400000, k]))
     return js
@@ -30,7 +30,8 @@ def run(ctx):
     return core.simple_check(
         ctx, jobs, distribution=core.field_distribution(("P ",), ["case", "norm", "mode", "reparse"], numeric=()),
         rule="pattern strings: exhaustive over all texts of length <= 4 (thorough: 6) on the alphabet {a B ! ^ ' $ \\ space ä}, and seeded random "
-             "concatenations of ASCII/non-ASCII words, every kind of whitespace, backslashes and markers; each under a CaseMatching x Normalization "
+             "concatenations of ASCII/non-ASCII words, every kind of whitespace, backslashes and markers; plus every character on which case folding or Latin normalization acts "
+             "(directly or on its folded form), alone and behind an ASCII letter, under all six settings; each under a CaseMatching x Normalization "
              "setting, through Pattern::parse (+ reparse on a used object), Pattern::new with each kind, and the escaped form of the text itself "
              "(literal round trip); private flags read from the derived Debug output; distinct non-trivial = distinct (settings, mode, non-empty text)",
         nontrivial=nontrivial, describe=describe, correspondence="Model/Pattern.lean ~ matcher/src/pattern.rs (pattern_atoms, Atom::parse, Atom::new_inner both paths)",
